@@ -33,7 +33,10 @@ def lastParams (cls : Cls) (ch : List (Cls × PDict)) : Option PDict :=
 /-- `wrapper.__init__(self, function, **kwargs)` for `type(self) = cls` (_decorators.py:128-146):
     * a `function` of the same type is unwrapped and its parameters, updated by `kwargs`, are taken over;
     * then the chain below is walked and every wrapper of the same type found *under* another wrapper is cut out,
-      its parameters (updated by `kwargs`) being taken over. -/
+      its parameters (updated by `kwargs`) being taken over.
+    NOTE: every subclass `__init__` of the code passes its COMPLETE parameter set as `kwargs` (try_value: repeat, sleep,
+    return_value, value, verbose; loops: types; pd2np: exc), so in the code the update overwrites every inherited parameter.
+    `mk` is faithful for such complete dicts only (the driver is only sent complete dicts; `Props.C18.wrap_twice_params`). -/
 def mk (cls : Cls) (kwargs : PDict) (fn : WFn) : WFn :=
   let (kw0, ch) := match fn.chain with
     | (c, p) :: rest => if c = cls then (p.update kwargs, rest) else (kwargs, fn.chain)
@@ -166,6 +169,25 @@ def int2floatKw (exc : List String) : PDict → PDict
 def pd2npCall (exc : List String) (c : Call) : Call :=
   { args := int2floatList c.args, kw := int2floatKw exc c.kw }
 
+/-- python truthiness (`if x:`) of a parameter value -/
+def Val.truthy : Val → Bool
+  | .cell .none => false
+  | .cell (.bool b) => b
+  | .cell (.int n) => n != 0
+  | .cell (.flt q) => q != 0
+  | .cell (.str s) => s != ""
+  | .cell _ => true
+  | .list xs => !xs.isEmpty
+  | .tuple xs => !xs.isEmpty
+  | .dict kvs => !kvs.isEmpty
+
+/-- `if self.return_value:` of `try_value.wrapped` (_decorators.py:238): python TRUTHINESS of the parameter - `return_value=0`,
+`None`, `''` switch the fallback off just as `False` does (the constructor's default is `True`) -/
+def returnsValue (p : PDict) : Bool :=
+  match p.lookup "return_value" with
+  | some v => v.truthy
+  | Option.none => true
+
 /-- one call of a decorated function.  `s`, `body`: signature and body of the plain function. -/
 def evalChain (s : Sig) (body : PDict → Res Val) : List (Cls × PDict) → Call → Res Val
   | [], c => applyFn s body c
@@ -175,7 +197,7 @@ def evalChain (s : Sig) (body : PDict → Res Val) : List (Cls × PDict) → Cal
       match evalChain s body rest c with
       | .ok v => .ok v
       | .error e =>
-        if p.lookup "return_value" = some (.cell (.bool false)) then .error e
+        if returnsValue p = false then .error e
         else .ok ((p.lookup "value").getD (.cell .none))
   | (.tryBack, _) :: rest, c =>
       match evalChain s body rest c with
